@@ -679,6 +679,13 @@ def _width(ctx):
                 if any(isinstance(x, ast.Attribute) and x.attr == 'text' for x in ast.walk(ex.expand(n.value, cfg.node_of(n)))):
                     stores.append(n)
         if not stores:
+            for n in walk_no_nested(f.node):
+                if isinstance(n, ast.Assign) and len(n.targets) == 1 and isinstance(n.targets[0], ast.Subscript) \
+                        and isinstance(n.targets[0].value, ast.Name):
+                    fors = cfg.enclosing_fors(cfg.node_of(n))
+                    if any(_iter_in_order(ex.expand(fo.iter, cfg.node_of(fo)), rows) for fo in fors):
+                        o.refute(f, n, n, f"the width update `{src(n)[:80]}` inside the loop over the rows does not measure any cell text")
+                        return
             o.undecided(f, f.node, 'text_repr', "no width accumulation of the form `W[i] = max(len(cell.text), W[i])` found")
             return
         for st in stores:
@@ -1134,6 +1141,10 @@ def _pad_case(o, f, r, v, parts, conds, tp, wp):
     shown = ' + '.join(src(p) for p in parts) or "''"
     j = next((i for i, p in enumerate(parts) if isinstance(p, ast.Name) and p.id == tp), None)
     lj = next((i for i, p in enumerate(parts) if match(f"{tp}.ljust({wp})", p) or match(f"{tp}.ljust({wp}, ' ')", p)), None)
+    wrong_lj = next((p for p in parts if match(f"{tp}.ljust($*a)", p)), None)
+    if j is None and lj is None and wrong_lj is not None:
+        o.refute(f, r, wrong_lj, f"the text is padded by `{src(wrong_lj)}`, expected padding with spaces to exactly `{wp}`")
+        return
     if j is None and lj is None:
         o.undecided(f, r, r, f"returned value `{src(v)[:100]}` does not contain the text parameter as a part of a concatenation")
         return
